@@ -44,6 +44,33 @@ theorem C08_collect_sort_order_independent {κ β : Type} (g : κ → β) (le : 
     (hperm _).trans ((h.map g).trans (hperm _).symm)
   exact List.Perm.eq_of_pairwise (fun a b _ _ => hanti a b) (hsorted _) (hsorted _) hp
 
+/-- shape C′: a slice collected in iteration order, reordered by a sort whose comparator has ties
+(x/feedistribution AllocateTokensToStakers: `sort.Slice` by power, equal powers keep whatever order the
+AVS's asset map produced) and then consumed key-wise with a value that depends only on the key (each
+staker's reward is `reward·power/total`, the community pool gets `reward − Σ`): nothing but the *set* of
+elements is observable. `sort` is any function returning a permutation of its input. A consumer that
+treats a position specially (say, gives the last element the rounding dust) is outside this shape; the
+regenerated fact `positionDependentUses` (empty, `C08_no_position_dependent_use`) excludes it. -/
+theorem C08_collect_keywise_order_independent {κ α : Type} [DecidableEq κ] (v : κ → α)
+    (sort : List κ → List κ) (hperm : ∀ l, (sort l).Perm l)
+    {o₁ o₂ : List κ} (h : o₁.Perm o₂) (m : GoMap κ α) :
+    rangeLoop (writeBody v) (sort o₁) m = rangeLoop (writeBody v) (sort o₂) m :=
+  C08_write_order_independent v ((hperm o₁).trans (h.trans (hperm o₂).symm)) m
+
+/-- … and the amount left for the community pool (a sum over the same elements) as well -/
+theorem C08_collect_keywise_remainder_order_independent {κ : Type} (g : κ → Int)
+    (sort : List κ → List κ) (hperm : ∀ l, (sort l).Perm l)
+    {o₁ o₂ : List κ} (h : o₁.Perm o₂) (s : Int) :
+    rangeLoop (sumBody g) (sort o₁) s = rangeLoop (sumBody g) (sort o₂) s :=
+  C08_sum_order_independent g ((hperm o₁).trans (h.trans (hperm o₂).symm)) s
+
+/-- what the excluded consumer would do: with two elements and "the last one gets the rest", the two
+orders give different results -/
+theorem C08_last_gets_dust_is_order_dependent :
+    ∃ (o₁ o₂ : List Nat), o₁.Perm o₂ ∧
+      (o₁.getLast? : Option Nat) ≠ o₂.getLast? :=
+  ⟨[1, 2], [2, 1], List.Perm.swap 2 1 [], by decide⟩
+
 /-- shape F (SealRound): the set of closed rounds is schedule independent … -/
 theorem C08_seal_status_order_independent {κ : Type} [DecidableEq κ] (mustSeal : κ → Bool)
     {o₁ o₂ : List κ} (h : o₁.Perm o₂) (m : GoMap κ Bool) :
@@ -121,7 +148,7 @@ def siteShapes : List (String × String) := [  ("x/assets/keeper/client_chain_as
   ("x/avs/keeper/task.go:Keeper.GroupTasksByIDAndAddress:taskMap", "write+sort"),
   ("x/avs/types/types.go:Difference:diffMap", "write"),
   ("x/evm/keeper/precompiles.go:Keeper.GetAvailablePrecompileAddrs:k.precompiles", "collect+sort"),
-  ("x/feedistribution/keeper/allocation.go:Keeper.AllocateTokensToStakers:avsAssets", "collect+sort"),
+  ("x/feedistribution/keeper/allocation.go:Keeper.AllocateTokensToStakers:avsAssets", "collect+keywise"),
   ("x/operator/types/expected_keepers.go:MockOracle.GetMultipleAssetsPrices:assets", "any+write"),
   ("x/oracle/keeper/aggregator/aggregator.go:aggregator.copy4CheckTx:agg.dsPrices", "write"),
   ("x/oracle/keeper/aggregator/aggregator.go:aggregator.copy4CheckTx:report.prices", "write"),
@@ -144,15 +171,14 @@ def siteShapes : List (String × String) := [  ("x/assets/keeper/client_chain_as
 def registered : List String := siteShapes.map (·.1)
 
 /-- the shapes that have an order-independence theorem above -/
-def provedShapes : List String := ["sum", "sum2", "write", "any+write", "write+sort", "collect+sort", "max", "seal"]
+def provedShapes : List String := ["sum", "sum2", "write", "any+write", "write+sort", "collect+sort", "collect+keywise", "max", "seal"]
 
 theorem C08_every_registered_site_has_a_proved_shape : siteShapes.all (fun p => provedShapes.contains p.2) = true := by
   decide
 
 /-- `range` operands the syntactic typer could not decide, each checked by hand to be a slice -/
-def reviewedNonMap : List String := [  "app/ante/cosmos/fees.go:checkFeeCoinsAgainstMinGasPrices:minGasPrices",
-  "app/ante/cosmos/fees.go:getTxPriority:fees",
-  "app/ante/cosmos/min_price.go:MinGasPriceDecorator.AnteHandle:minGasPrices",
+def reviewedNonMap : List String := [
+  "app/ante/cosmos/fees.go:checkFeeCoinsAgainstMinGasPrices:minGasPrices",
   "app/ante/cosmos/reject_msgs.go:RejectMessagesDecorator.AnteHandle:tx.GetMsgs()",
   "app/ante/cosmos/sigverify.go:CountSubKeys:v.GetPubKeys()",
   "app/ante/cosmos/sigverify.go:IncrementSequenceDecorator.AnteHandle:sigTx.GetSigners()",
@@ -174,7 +200,6 @@ def reviewedNonMap : List String := [  "app/ante/cosmos/fees.go:checkFeeCoinsAga
   "app/ante/evm/eth.go:EthIncrementSenderSequenceDecorator.AnteHandle:tx.GetMsgs()",
   "app/ante/evm/fee_checker.go:NewDynamicFeeChecker:hasExtOptsTx.GetExtensionOptions()",
   "app/ante/evm/fee_checker.go:checkTxFeeWithValidatorMinGasPrices:minGasPrices",
-  "app/ante/evm/fee_checker.go:getTxPriority:fees",
   "app/ante/evm/fees.go:EthMempoolFeeDecorator.AnteHandle:tx.GetMsgs()",
   "app/ante/evm/fees.go:EthMinGasPriceDecorator.AnteHandle:tx.GetMsgs()",
   "app/ante/evm/setup_ctx.go:EthEmitEventDecorator.AnteHandle:tx.GetMsgs()",
